@@ -1,7 +1,11 @@
+//go:build c07node
+
 package c07
 
-// Development-time cross-check of the reference model against Node.js (NOT part of the check: it only
-// runs when C07_NODE=1 and is never used by ./check). Node is ES2023; on the domain of this facet
+// Development-time cross-check of the reference model against Node.js. NOT part of the check: the file is only
+// compiled with `-tags c07node` (./check never sets it) and the test additionally wants C07_NODE=1:
+//   cd props/c07 && C07_NODE=1 go test -tags c07node -vet=off -run TestModelAgainstNode -rapid.checks=20000 -rapid.nofailfile .
+// Node is ES2023; on the domain of this facet
 // (ordinary objects, sloppy mode, insertion-ordered string keys, index-like names compared as a set)
 // its behaviour coincides with ES5.1, so any disagreement points at a mistake in verif/lib/m07.
 
